@@ -54,6 +54,14 @@ def histories(rng, L, tier):
                     ['pred', 0, I, [c(1), c(2)], 'T']])
         out.append([['pred', 0, I, [c(1), c(0)], 'T'], ['pred', 0, I, [c(2), c(0)], 'T'],
                     ['pred', 0, I, [c(1), c(2)], 'T']])
+        # "every predicate's extension respects identity": tuples that repeat a constant (each occurrence is
+        # replaceable on its own), identity set before and after the extension
+        G2 = mlib.G2
+        out.append([['pred', 0, G2, [c(0), c(0)], 'T'], ['pred', 0, I, [c(0), c(1)], 'T']])
+        out.append([['pred', 0, I, [c(0), c(1)], 'T'], ['pred', 0, G2, [c(0), c(0)], 'T']])
+        out.append([['pred', 0, G2, [c(0), c(2)], 'T'], ['pred', 0, G2, [c(2), c(0)], 'F'],
+                    ['pred', 0, I, [c(1), c(0)], 'T']])
+        out.append([['pred', 0, I, [c(0), c(0)], 'T'], ['pred', 0, I, [c(1), c(0)], 'T']])
     return out
 
 
